@@ -49,7 +49,7 @@ class Prop(SeqProp):
             yield self.gen_one(rng, tier)
 
     def gen_one(self, rng, tier):
-        payload = rng.choice(["distinct", "equal", "eqraises", "falsy"])
+        payload = rng.choice(["distinct", "equal", "eqraises", "falsy", "node"])
         max_len = rng.choice([6, 12, 40, 120 if tier != "quick" else 60])
         length = rng.randint(1, max_len)
         ops = []
@@ -198,7 +198,26 @@ class Prop(SeqProp):
                 return 7
             if kind == "falsy":
                 return dec_val(counter[0] % 6)
+            if kind == "node":
+                # payloads that are node handles of another, living list (sometimes the same handle again): opaque values
+                return donor_nodes[(counter[0] * 3) % len(donor_nodes)]
             return EqRaises()
+
+        donor = DoublyLinkedList(["d0", "d1", "d2", "d3", "d4"])
+        donor_nodes = []
+        _n = donor.head
+        while _n is not None and len(donor_nodes) < 5:
+            donor_nodes.append(_n); _n = _n.next_node
+
+        def donor_intact():
+            seen, n = [], donor.head
+            while n is not None and len(seen) < 7:
+                seen.append(n); n = n.next_node
+            back, n = [], donor.tail
+            while n is not None and len(back) < 7:
+                back.append(n); n = n.prev_node
+            return (len(seen) == 5 and all(a is b for a, b in zip(seen, donor_nodes)) and len(donor) == 5
+                    and all(a is b for a, b in zip(back, reversed(donor_nodes))) and [x.data for x in seen] == ["d0", "d1", "d2", "d3", "d4"])
 
         l = DoublyLinkedList()
         nodes = []  # id -> node object
@@ -334,10 +353,19 @@ class Prop(SeqProp):
                 if isinstance(e, (KeyboardInterrupt, SystemExit)):
                     raise
                 out.append(fin(f"err {err_name(e)}"))
+            if kind == "node" and not donor_intact():
+                out[-1] = "payload-list-damaged " + out[-1]
+                break
+        while len(out) < len(case.ops):
+            out.append("aborted")
         return out
 
     # ---- independent oracle: a Python list of node ids -------------------------------------------------------------
     def oracle(self, case, impl_out):
+        for k, line in enumerate(impl_out):
+            if line.startswith("payload-list-damaged"):
+                return (f"op {k} `{case.ops[k]}`: the payloads are node handles of another list; that list is no longer intact "
+                        f"(a payload is an opaque value, whatever its type)")
         ref = []
         fresh = 0
         quiet = False
